@@ -338,3 +338,13 @@ Theorem C06_semaphore_release_on_cancel_refuted :
   pool_run 10 true pool_init [PSend; PAcquire; PCancel; PDone] = Panic.
 Proof. exact semaphore_release_on_cancel_refuted. Qed.
 Print Assumptions C06_semaphore_release_on_cancel_refuted.
+
+(* The composed form of the statement above (round A5): list handler, dispatcher, semaphore and workers are one machine
+   (model/Discovery.v, run against the real discovery by the C15 driver's class "discovery-machine").  For every width
+   and every schedule -- lists of any length, entries known / unknown / undecodable, dials answered in any order with
+   any answer, contexts ending, topology changes in between -- the run ends in a state (no crash value, no error
+   value); Release is never called with nothing held.  The counter-only statement above stays for the seeded variant. *)
+From MevVerif Require model.Discovery proofs.Discovery_proofs.
+Theorem C06_no_panic_discovery_machine : forall cap evs, Discovery.drun cap evs <> Panic.
+Proof. exact Discovery_proofs.disc_no_panic. Qed.
+Print Assumptions C06_no_panic_discovery_machine.
